@@ -105,6 +105,15 @@ def run(ctx):
         ctx.ob('C10-C.flush-clears-result-cache-first', fl, e.ast, ok,
                '' if ok else 'flush emits statements at line %d without clearing query_results first' % e.lineno, node=e.ast)
 
+    hooks = nodes_calling(g, lambda c: isinstance(c.func, ast.Attribute) and c.func.attr == '_before_save_')
+    ctx.floor('C10-C', len(hooks), 1, 'before-save hook calls in SessionCache.flush')
+    for h in hooks:
+        # user hooks may run queries (with flushing disabled) whose results are cached: the clear must come after them
+        ok = g.must_pass_after(h, clears, exits=emit)
+        ctx.ob('C10-C.result-cache-cleared-after-hooks', fl, h.ast, ok,
+               '' if ok else 'statements are emitted after the before_* hooks without clearing query_results in between: a query '
+               'run inside a hook (pre-flush view) stays cached and answers the same query after the flush', node=h.ast)
+
     qd = repo.fn('pony.orm.core', 'Query.delete')
     g = cg.cfg(qd)
     dml = [n for n in nodes_calling(g, lambda c: isinstance(c.func, ast.Attribute) and c.func.attr == '_exec_sql')]
@@ -215,6 +224,14 @@ MUTANTS = [
          old='                    cache.query_results.clear()\n', new='', expect='C10-C.flush-clears'),
     dict(id='C10-m4', file='pony/orm/core.py', fn='Query.delete',
          old='        cache.query_results.clear()\n', new='', expect='C10-C.bulk-delete'),
+    dict(id='C10-m8', file='pony/orm/core.py', fn='SessionCache.flush',
+         old='                with cache.flush_disabled():\n                    for obj in cache.objects_to_save:  # can grow during iteration',
+         new='                cache.query_results.clear()\n                with cache.flush_disabled():\n                    for obj in cache.objects_to_save:  # can grow during iteration',
+         benign=True),
+    dict(id='C10-m9', file='pony/orm/core.py', fn='SessionCache.flush',
+         old='                with cache.flush_disabled():\n                    for obj in cache.objects_to_save:  # can grow during iteration\n                        if obj is not None: obj._before_save_()\n\n                    cache.query_results.clear()\n',
+         new='                cache.query_results.clear()\n                with cache.flush_disabled():\n                    for obj in cache.objects_to_save:  # can grow during iteration\n                        if obj is not None: obj._before_save_()\n\n',
+         expect='C10-C.result-cache-cleared-after-hooks'),
     dict(id='C10-m5', file='pony/orm/core.py', fn='Set.reverse_add',
          old='            if setdata.count is not None: setdata.count += 1\n', new='', expect='C10-B'),
     dict(id='C10-m6', file='pony/orm/core.py', fn='SessionCache.prepare_connection_for_query_execution',
